@@ -161,6 +161,18 @@ func (vm *VM) BeginScope() {
 	}
 }
 
+// BeginBoundScope - begin a scope on the current module and return the function that ends
+// this very scope, whichever module is the current one by the time it is called (after a failed
+// call into another module the current module is still the callee's one)
+func (vm *VM) BeginBoundScope() func() {
+	scope := vm.getCurrentScope()
+	if scope == nil {
+		return func() {}
+	}
+	scope.BeginScope()
+	return scope.EndScope
+}
+
 // EndScope - end current scope
 func (vm *VM) EndScope() {
 	scope := vm.getCurrentScope()
